@@ -72,6 +72,53 @@ impl FetchBlocksGuard {
 //@|         final(s).syncing_state.response_to_process == old(s).syncing_state.response_to_process,
 //@|         final(s).unstable_blocks == old(s).unstable_blocks && final(s).utxos == old(s).utxos,
 //@end
+// ---- the guard is HELD while the request is outstanding: maybe_fetch_blocks from its start to the get_successors call ------
+// R14 (drop elaboration, opt-in): Rust drops the value of `let _ = e;` at the end of the statement, a named binding
+// (`let _guard = e;`) at the end of its scope; explicit drop(x) calls become the drop body. The guard's drop is the verified
+// slice fetch_blocks_guard_drop_body.
+fn vp_drop_guard(g: FetchBlocksGuard, vp_st: &mut State)
+    ensures
+        !final(vp_st).syncing_state.is_fetching_blocks,
+        final(vp_st).syncing_state.response_to_process == old(vp_st).syncing_state.response_to_process,
+        final(vp_st).unstable_blocks == old(vp_st).unstable_blocks && final(vp_st).utxos == old(vp_st).utxos,
+{
+    fetch_blocks_guard_drop_body(vp_st)
+}
+// [trusted:stand-in] maybe_get_successors_request reads the state only (verified separately above against next_request_ok);
+// the request-statistics closure (heartbeat.rs:79-98: data_size, f64 seconds, histogram) is elided (R3): it touches
+// syncing_state.get_successors_request_stats and metrics only
+#[verifier::external_body]
+fn vp_maybe_get_successors_request(vp_st: &State) -> (r: Option<GetSuccessorsRequest>) { unimplemented!() }
+#[verifier::external_body]
+fn vp_request_stats(vp_st: &mut State, request: &GetSuccessorsRequest)
+    ensures
+        final(vp_st).syncing_state.is_fetching_blocks == old(vp_st).syncing_state.is_fetching_blocks,
+        final(vp_st).syncing_state.response_to_process == old(vp_st).syncing_state.response_to_process,
+        final(vp_st).syncing_state.syncing == old(vp_st).syncing_state.syncing,
+        final(vp_st).unstable_blocks == old(vp_st).unstable_blocks && final(vp_st).utxos == old(vp_st).utxos,
+{ unimplemented!() }
+//@slice file=canister/src/heartbeat.rs item="fn maybe_fetch_blocks" to_before="let response: Result<GetSuccessorsResponse, _> =" props=C13
+//@ rewrite R7 "crate::guard::FetchBlocksGuard::new\(\)" => "FetchBlocksGuard::new(vp_st)"
+//@ rewrite R7 "maybe_get_successors_request\(\)" => "vp_maybe_get_successors_request(vp_st)"
+//@ rewrite R3 "with_state_mut\(\|s\| \{\s*let stats = &mut s\.syncing_state\.get_successors_request_stats;.*?\n    \}\);" => "vp_request_stats(vp_st, &request);"
+//@ r7 ro="&*vp_st" rw="&mut *vp_st" type=State
+//@ r14 fn=vp_drop_guard args=vp_st
+//@ head
+//@| // R8 slice: maybe_fetch_blocks up to (not including) the inter-canister call; `true` = the call is made next
+//@| fn maybe_fetch_blocks_until_call(vp_st: &mut State) -> (sent: bool)
+//@|     ensures
+//@|         // a request is sent only if none was outstanding, and the flag stays raised while it is outstanding
+//@|         sent ==> !old(vp_st).syncing_state.is_fetching_blocks && final(vp_st).syncing_state.is_fetching_blocks,
+//@|         // and only while syncing is enabled
+//@|         sent ==> old(vp_st).syncing_state.syncing != Flag::Disabled,
+//@|         final(vp_st).syncing_state.response_to_process == old(vp_st).syncing_state.response_to_process,
+//@|         final(vp_st).unstable_blocks == old(vp_st).unstable_blocks && final(vp_st).utxos == old(vp_st).utxos,
+//@| {
+//@ tail
+//@|     true
+//@| }
+//@end
+
 //@extract file=canister/src/lib.rs item="fn reset_syncing_state" props=C13
 //@ spec
 //@| ensures
